@@ -190,6 +190,9 @@ func (t *RawTarget) serve(c net.Conn) {
 			c.Write(okResponse(200, goodBody, "ab"))
 		case letter == "nohdr":
 			c.Write(okResponse(200, goodBody, ""))
+		case strings.HasPrefix(letter, "lst"): // what later steps index as a list: empty / one element / not a list at all
+			list := map[string]string{"lst0": "[]", "lst1": "[5]", "lststr": `"abc"`, "lstnull": "null", "lstobj": "{}"}[letter]
+			c.Write(okResponse(200, `{"tok":"j7","list":`+list+`}`, longTok))
 		case letter == "trunc":
 			c.Write([]byte("HTTP/1.1 200 OK\r\nX-Tok: " + longTok + "\r\nContent-Length: 100\r\n\r\n{\"tok\":\"j"))
 			return
